@@ -179,10 +179,14 @@ fn strategy() -> BoxedStrategy<Case> {
 pub fn run_all(ctx: &Ctx) {
     let t = ctx.tier;
     ctx.run_sub("binfhe_exact_scratch", t.pick(256, 4_000), 16, strategy, test);
+    ctx.run_sub("binfhe_blind_rotation_exact_scratch", t.pick(4_000, 100_000), 64, crate::c14::br_strategy, crate::c14::test_br_c12);
 }
 
 pub fn replay(ctx: &Ctx, sub: &str, case: &serde_json::Value) -> i32 {
+    if sub == "binfhe_blind_rotation_exact_scratch" {
+        return ctx.replay_case::<crate::c14::BrCase, _>(sub, case, crate::c14::test_br_c12);
+    }
     ctx.replay_case::<Case, _>(sub, case, test)
 }
 
-pub const RULE: &str = "binary-FHE layer: cases = (backend in FFT64Ref/FFT64Avx/NTT120Ref, shipped test layout, call in {the 11 word operations single-threaded, the same through *_multi_thread with 2/3/5/7 threads, FheUint::encrypt_sk, FheUint::decrypt, fhe_uint_prepare, fhe_uint_prepare_custom_multi_thread}, generated operands and seeds). The call under audit receives a 64-byte aligned scratch window of exactly the bytes of its own size query (<op>_tmp_bytes, <op>_multi_thread_tmp_bytes, encrypt_sk_tmp_bytes, decrypt_tmp_bytes, threads x fhe_uint_prepare_tmp_bytes) inside guard regions, twice with different garbage; the result bytes must equal those of the run with ample scratch. non-trivial = query > 0.";
+pub const RULE: &str = "binary-FHE layer: cases = (backend in FFT64Ref/FFT64Avx/NTT120Ref, shipped test layout, call in {the 11 word operations single-threaded, the same through *_multi_thread with 2/3/5/7 threads, FheUint::encrypt_sk, FheUint::decrypt, fhe_uint_prepare, fhe_uint_prepare_custom_multi_thread}, generated operands and seeds). The call under audit receives a 64-byte aligned scratch window of exactly the bytes of its own size query (<op>_tmp_bytes, <op>_multi_thread_tmp_bytes, encrypt_sk_tmp_bytes, decrypt_tmp_bytes, threads x fhe_uint_prepare_tmp_bytes) inside guard regions, twice with different garbage; the result bytes must equal those of the run with ample scratch. non-trivial = query > 0. Sub-check binfhe_blind_rotation_exact_scratch: the blind-rotation cases of C14 (N 8..64, extension factor 1..8, standard / block-binary keys, ranks, radices, result sizes): BlindRotationKeyPrepared::execute on a window of exactly execute_tmp_bytes(block_size, extension_factor, result layout, key layout), two garbage fills and two different prior contents of the destination, against the run on ample garbage-filled scratch.";
